@@ -1,21 +1,18 @@
 SPECIFICATION Spec
 CONSTANTS
   Classes <- Classes4
-  Outs <- OutsC03
-  Durs = {0, 1}
+  Outs <- OutsC04
+  Durs = {0, 2}
   Rets <- RetsOne
   Advs <- AdvsExact
   Decs <- DecsAll
   BFaults <- BFaultsNone
   Ras <- RasNone
-  Modes = {"call", "exec"}
+  Modes = {"exec"}
   RunGaps <- GapsNone
   NRuns = 1
-  Configs <- ConfigsC03
-  RecordHist = FALSE
+  Configs <- ConfigsC11
+  RecordHist = TRUE
 INVARIANT NoViolation
-INVARIANT AttemptsBounded
-INVARIANT InvokeWithinDeadline
-INVARIANT SleepWithinRemaining
-INVARIANT DeliveriesRelated
+INVARIANT ExportBehaviours
 CHECK_DEADLOCK FALSE
